@@ -532,6 +532,32 @@ def r3_5(ctx):
                     break
             if blk is None:
                 continue
+            # a block copy of the whole parallel array starts at element 0
+            for x in f.walk(blk):
+                if x.get('l', 0) < t.get('l', 0) or x['k'] != 'call' or x.get('callee') not in ('memcpy', 'memmove'):
+                    continue
+                a_ = f.call_args(x)
+                if len(a_) < 2:
+                    continue
+                sarr = cu.strip_casts(f, a_[1])
+                if sarr is not None and sarr['k'] == 'un' and sarr['op'] == '&':
+                    sarr = cu.strip_casts(f, f.kid(sarr, 0))
+                # only the array the trimmed atom was made from needs the shift: the one that
+                # is read at `+ shift` elsewhere in the function (an array that received a
+                # shifted copy is already aligned)
+                import re as _re2
+                needs = set()
+                for y in f.all_nodes():
+                    if y['k'] == 'sub' and (y.get('t') or '').replace(' ', '') == 'RE_NODE*' and \
+                            S in _re2.findall(r'[A-Za-z_]\w*', canon(f, f.kid(y, 1))):
+                        needs.add(canon(f, f.kid(y, 0)))
+                if sarr is not None and sarr['k'] == 'ref' and sarr['name'] in needs and \
+                        (sarr.get('t') or '').replace(' ', '').startswith('RE_NODE*['):
+                    n_sites += 1
+                    ctx.ob('R3.5', '%s:trim%d:%s[0..]:shifted' % (f.name, k, sarr['name']), False, f.loc(x),
+                           '%s is copied as a whole (from element 0) after the atom was trimmed by `%s` '
+                           'positions: the atom is paired with the code of a node %s positions to its left and '
+                           'every hit is verified out of alignment' % (sarr['name'], S, S))
             for x in f.walk(blk):
                 if x['i'] <= t['i'] or x['k'] != 'sub' or x.get('t', '').replace(' ', '') != 'RE_NODE*':
                     continue
